@@ -42,7 +42,15 @@ pub fn close_flow(
         return Err(ContractError::UnauthorizedFlowClose { flow_identifier });
     }
 
-    let amount_to_return = flow.flow_asset.amount.saturating_sub(flow.claimed_amount);
+    // take flow expansions into account: the latest entry of the asset history holds the total
+    // amount the flow was expanded to. Default to the original flow asset amount if never expanded.
+    let total_flow_amount = flow
+        .asset_history
+        .last_key_value()
+        .map_or(flow.flow_asset.amount, |(_, (expanded_amount, _))| {
+            *expanded_amount
+        });
+    let amount_to_return = total_flow_amount.saturating_sub(flow.claimed_amount);
 
     // return the flow assets available, i.e. the ones that haven't been claimed
     let messages: Vec<CosmosMsg> = vec![match flow.flow_asset.info {
